@@ -355,18 +355,12 @@ def nAck : List Ev → Nat
   | .sSettingsAck :: r => nAck r + 1
   | _ :: r => nAck r
 
-/-- Clause 4 as the statement has it: at every quiescent point of a live connection there are as
-many SETTINGS ACKs as valid SETTINGS frames. FALSE of the unchanged code (`settings_full_false`). -/
+/-- Clause 4: a SETTINGS ACK always acknowledges an earlier, not yet acknowledged SETTINGS frame,
+and at every quiescent point of a live connection there are as many SETTINGS ACKs as valid
+SETTINGS frames: every SETTINGS frame is acknowledged, one ACK each (RFC 9113 6.5.3). -/
 def SettingsFull (tr : List Ev) : Prop :=
-  ∀ pre post, tr = pre ++ Ev.quiesce :: post → liveAt pre → nAck pre = nSet pre
-
-/-- What the code guarantees: an ACK always acknowledges an earlier, not yet counted SETTINGS
-frame, and at every quiescent point of a live connection every SETTINGS frame has been
-*followed* by a SETTINGS ACK. -/
-def SettingsWeak (tr : List Ev) : Prop :=
   (∀ pre post, tr = pre ++ Ev.sSettingsAck :: post → nAck pre < nSet pre) ∧
-  (∀ pre post, tr = pre ++ Ev.quiesce :: post → liveAt pre →
-    ∀ p1 p2, pre = p1 ++ Ev.cSettings 0 :: p2 → Ev.sSettingsAck ∈ p2)
+  (∀ pre post, tr = pre ++ Ev.quiesce :: post → liveAt pre → nAck pre = nSet pre)
 
 theorem stepD_live {m m1 : MonD} {e : Ev} (h : stepD m e = some m1) : m1.live = m.live.step e := by
   unfold stepD at h
@@ -381,8 +375,7 @@ theorem stepD_live {m m1 : MonD} {e : Ev} (h : stepD m e = some m1) : m1.live = 
 theorem runD_sound {m m' : MonD} {tr : List Ev} (h : runWith stepD m tr = some m') :
     (∀ pre post, tr = pre ++ Ev.sSettingsAck :: post → m.nack + nAck pre < m.nset + nSet pre) ∧
     (∀ pre post, tr = pre ++ Ev.quiesce :: post → (liveFrom m.live pre).due = true →
-      (m.dirty = true → Ev.sSettingsAck ∈ pre) ∧
-      ∀ p1 p2, pre = p1 ++ Ev.cSettings 0 :: p2 → Ev.sSettingsAck ∈ p2) := by
+      m.nack + nAck pre = m.nset + nSet pre) := by
   induction tr generalizing m with
   | nil =>
     constructor
@@ -428,140 +421,47 @@ theorem runD_sound {m m' : MonD} {tr : List Ev} (h : runWith stepD m tr = some m
         simp [liveFrom] at hlive
         have hdue : (m.live.step Ev.quiesce).due = true := by simpa [Live.step] using hlive
         have := h1.1 hdue
-        simp [this]
+        simp [nAck, nSet, this]
       | cons p pre' =>
         simp at hs
         obtain ⟨rfl, rfl⟩ := hs
         rw [liveFrom_cons, ← hl] at hlive
-        obtain ⟨g1, g2⟩ := ih2 pre' post rfl hlive
-        have split2 : ∀ (hne : ev ≠ Ev.cSettings 0) p1 p2, ev :: pre' = p1 ++ Ev.cSettings 0 :: p2 →
-            Ev.sSettingsAck ∈ p2 := by
-          intro hne p1 p2 hp
-          cases p1 with
-          | nil => simp at hp; exact absurd hp.1 hne
-          | cons q p1' => simp at hp; exact g2 p1' p2 hp.2
-        cases ev <;> simp [stepD] at h1 <;>
-          try (subst h1; exact ⟨fun hd => List.mem_cons_of_mem _ (g1 hd), split2 (by simp)⟩)
+        have := ih2 pre' post rfl hlive
+        cases ev <;> simp [stepD] at h1 <;> try (subst h1; simpa [nAck, nSet] using this)
         case cSettings v =>
           cases v with
-          | zero =>
-            simp at h1
-            subst h1
-            have hack := g1 rfl
-            refine ⟨fun _ => List.mem_cons_of_mem _ hack, ?_⟩
-            intro p1 p2 hp
-            cases p1 with
-            | nil => simp at hp; subst hp; exact hack
-            | cons q p1' => simp at hp; exact g2 p1' p2 hp.2
-          | succ k =>
-            simp at h1
-            subst h1
-            exact ⟨fun hd => List.mem_cons_of_mem _ (g1 hd), split2 (by simp)⟩
+          | zero => simp at h1; subst h1; simp [nAck, nSet] at this ⊢; omega
+          | succ k => simp at h1; subst h1; simpa [nAck, nSet] using this
         case sSettingsAck =>
           obtain ⟨_, rfl⟩ := h1
-          exact ⟨fun _ => List.mem_cons_self, split2 (by simp)⟩
+          simp [nAck, nSet] at this ⊢
+          omega
         case quiesce =>
           obtain ⟨_, rfl⟩ := h1
-          exact ⟨fun hd => List.mem_cons_of_mem _ (g1 hd), split2 (by simp)⟩
+          simpa [nAck, nSet] using this
 
-/-- **Monitor soundness, clause 4 (what holds of the code as it is).** -/
-theorem settings_partial {tr : List Ev} {m : Mon} (h : Mon.run {} tr = some m) : SettingsWeak tr := by
+/-- **Monitor soundness, clause 4 (full strength).** -/
+theorem settings_holds {tr : List Ev} {m : Mon} (h : Mon.run {} tr = some m) : SettingsFull tr := by
   have := runD_sound (run_components h).2.2.2.1
   constructor
   · intro pre post hs
     simpa using this.1 pre post hs
   · intro pre post hs hl
-    exact (this.2 pre post hs hl).2
+    simpa using this.2 pre post hs hl
 
-/-- two SETTINGS frames arrive while a write is blocked; one ACK follows (reproduced on the real
-server by the harness: oracle signature `settings-ack-coalesced`). -/
+/-- the trace of the repaired defect `settings-ack-coalesced`: two SETTINGS frames arrive while a
+write is blocked and ONE ACK follows. Produced by the server before the repair; the monitor now
+rejects it (corpus/C15/coalesced.ops is the regression input). -/
 def witnessCoalesced : List Ev :=
   [.sSettings (some 1), .blk, .cSettings 0, .cSettings 0, .quiesce, .unblk, .sSettingsAck, .quiesce]
 
-theorem witnessCoalesced_accepted : (Mon.run {} witnessCoalesced).isSome = true := by decide
+theorem witnessCoalesced_rejected : (Mon.run {} witnessCoalesced).isSome = false := by decide
 
-/-- The literal clause "acknowledges every SETTINGS frame" (one ACK per frame) is false for a trace
-the monitor — and the real server — produce. -/
-theorem settings_full_false : ¬ (∀ tr m, Mon.run {} tr = some m → SettingsFull tr) := by
-  intro hall
-  cases hrun : Mon.run {} witnessCoalesced with
-  | none => have := witnessCoalesced_accepted; simp [hrun] at this
-  | some m =>
-    have := hall _ m hrun
-      [.sSettings (some 1), .blk, .cSettings 0, .cSettings 0, .quiesce, .unblk, .sSettingsAck] [] rfl
-      (by simp [liveAt, liveFrom, List.foldl, Live.step, Live.due])
-    simp [nAck, nSet] at this
+/-- what the repaired server does on the same input: one ACK per SETTINGS frame -/
+def witnessRepaired : List Ev :=
+  [.sSettings (some 1), .blk, .cSettings 0, .cSettings 0, .quiesce, .unblk, .sSettingsAck, .sSettingsAck, .quiesce]
 
-/-- excluded region of `settings_holds_partial`: some live quiescent point has fewer ACKs than SETTINGS -/
-def coalescedAt (tr : List Ev) : Prop :=
-  ∃ pre post, tr = pre ++ Ev.quiesce :: post ∧ liveAt pre ∧ nAck pre < nSet pre
-
-/-- Outside the excluded region the full clause holds: ACKs never outnumber SETTINGS frames, so
-"not fewer" at a live quiescent point is "equal". -/
-theorem settings_holds_partial {tr : List Ev} {m : Mon} (h : Mon.run {} tr = some m)
-    (hno : ¬ coalescedAt tr) : SettingsFull tr := by
-  intro pre post hs hl
-  have hle : nAck pre ≤ nSet pre := by
-    -- ACKs never outnumber SETTINGS: induction through the monitor's counter invariant
-    have key : ∀ (m0 m1 : MonD) (l : List Ev), runWith stepD m0 l = some m1 →
-        m0.nack ≤ m0.nset → m1.nack + 0 ≤ m1.nset ∧ True := by
-      intro m0 m1 l hr h0
-      induction l generalizing m0 with
-      | nil => simp [runWith] at hr; subst hr; exact ⟨by omega, trivial⟩
-      | cons e r ih =>
-        obtain ⟨mm, e1, e2⟩ := runWith_cons hr
-        apply ih mm e2
-        cases e <;> simp [stepD] at e1 <;> try (subst e1; simpa using h0)
-        case cSettings v =>
-          cases v <;> simp at e1 <;> subst e1 <;> simp <;> omega
-        case sSettingsAck =>
-          obtain ⟨hh, rfl⟩ := e1
-          simp
-          omega
-        case quiesce =>
-          obtain ⟨_, rfl⟩ := e1
-          simpa using h0
-    -- counters of the monitor equal the trace counts
-    have cnt : ∀ (m0 m1 : MonD) (l : List Ev), runWith stepD m0 l = some m1 →
-        m1.nack = m0.nack + nAck l ∧ m1.nset = m0.nset + nSet l := by
-      intro m0 m1 l hr
-      induction l generalizing m0 with
-      | nil => simp [runWith] at hr; subst hr; simp [nAck, nSet]
-      | cons e r ih =>
-        obtain ⟨mm, e1, e2⟩ := runWith_cons hr
-        have := ih mm e2
-        cases e <;> simp [stepD] at e1 <;> try (subst e1; simpa [nAck, nSet] using this)
-        case cSettings v =>
-          cases v with
-          | zero => simp at e1; subst e1; simp [nAck, nSet] at this ⊢; omega
-          | succ k => simp at e1; subst e1; simpa [nAck, nSet] using this
-        case sSettingsAck =>
-          obtain ⟨hh, rfl⟩ := e1
-          simp [nAck, nSet] at this ⊢
-          omega
-        case quiesce =>
-          obtain ⟨_, rfl⟩ := e1
-          simpa [nAck, nSet] using this
-    -- run the prefix
-    have hD := (run_components h).2.2.2.1
-    subst hs
-    have pref : ∀ (m0 m1 : MonD) (a b : List Ev), runWith stepD m0 (a ++ b) = some m1 →
-        ∃ mm, runWith stepD m0 a = some mm := by
-      intro m0 m1 a b hr
-      induction a generalizing m0 with
-      | nil => exact ⟨m0, rfl⟩
-      | cons e r ih =>
-        obtain ⟨mm, e1, e2⟩ := runWith_cons hr
-        obtain ⟨m2, hm2⟩ := ih mm e2
-        exact ⟨m2, by simp [runWith, e1, hm2]⟩
-    obtain ⟨mm, hmm⟩ := pref _ _ pre _ hD
-    have c := cnt _ _ _ hmm
-    have k := (key _ _ _ hmm (by simp)).1
-    simp at c
-    omega
-  by_cases heq : nAck pre = nSet pre
-  · exact heq
-  · exact absurd ⟨pre, post, hs, hl, by omega⟩ hno
+theorem witnessRepaired_accepted : (Mon.run {} witnessRepaired).isSome = true := by decide
 
 /-! ## E. malformed / connection-specific requests -/
 
@@ -885,11 +785,11 @@ theorem reject_partial {tr : List Ev} {m : Mon} (h : Mon.run {} tr = some m) :
   ⟨accepted_onlyGoodRequestsReachHandler h, accepted_malformedGetStreamError h⟩
 
 /-- **Monitor soundness**: every trace the monitor accepts satisfies the statement (clauses 1–3
-in full, 4 and 5 in the form the code implements). -/
+–4 in full, 5 in the form the code implements). -/
 theorem monitor_sound {tr : List Ev} {m : Mon} (h : Mon.run {} tr = some m) :
-    NoSendAfterClose tr ∧ HandlerBound tr ∧ PingSpec tr ∧ SettingsWeak tr ∧
+    NoSendAfterClose tr ∧ HandlerBound tr ∧ PingSpec tr ∧ SettingsFull tr ∧
     OnlyGoodRequestsReachHandler tr ∧ MalformedGetStreamError tr :=
-  ⟨accepted_noSendAfterClose h, accepted_handlerBound h, accepted_pingSpec h, settings_partial h,
+  ⟨accepted_noSendAfterClose h, accepted_handlerBound h, accepted_pingSpec h, settings_holds h,
    accepted_onlyGoodRequestsReachHandler h, accepted_malformedGetStreamError h⟩
 
 
